@@ -183,6 +183,25 @@ func (c *Ctx) applyReader(src string, opts *distiller.Options) callResult {
 	return r
 }
 
+// applyVariant delivers the same page through one of three equivalent routes
+// chosen by k: bytes (ApplyForReader), the parsed document node, or its <html>
+// element as root.
+func (c *Ctx) applyVariant(src string, opts *distiller.Options, k int) callResult {
+	switch k % 3 {
+	case 1:
+		return c.apply(parseHTML(src), opts)
+	case 2:
+		doc := parseHTML(src)
+		for n := doc.FirstChild; n != nil; n = n.NextSibling {
+			if n.Type == html.ElementNode && n.Data == "html" {
+				return c.apply(n, opts)
+			}
+		}
+		return c.apply(doc, opts)
+	}
+	return c.applyReader(src, opts)
+}
+
 // usable reports whether the call produced a result an oracle can look at. A
 // panic or error in a property other than C01 makes the case unobservable
 // (counted, never folded into "held").
